@@ -617,14 +617,31 @@ impl<'a> Chk<'a> {
                 1 => {
                     // prefix / suffix / substring filters with a whole term behave as exact ones
                     let mut qb = db.query();
+                    // the three kinds rotate over the three positions from lookup to lookup
+                    let rot = (idx / 4) % 3;
                     if let Some(x) = pat.0 {
-                        qb = qb.with_subject_starting(&u.terms[x as usize]);
+                        let t = &u.terms[x as usize];
+                        qb = match rot {
+                            0 => qb.with_subject_starting(t),
+                            1 => qb.with_subject_like(t),
+                            _ => qb.with_subject_ending(t),
+                        };
                     }
                     if let Some(x) = pat.1 {
-                        qb = qb.with_predicate_like(&u.terms[x as usize]);
+                        let t = &u.terms[x as usize];
+                        qb = match rot {
+                            0 => qb.with_predicate_like(t),
+                            1 => qb.with_predicate_ending(t),
+                            _ => qb.with_predicate_starting(t),
+                        };
                     }
                     if let Some(x) = pat.2 {
-                        qb = qb.with_object_ending(&u.terms[x as usize]);
+                        let t = &u.terms[x as usize];
+                        qb = match rot {
+                            0 => qb.with_object_ending(t),
+                            1 => qb.with_object_starting(t),
+                            _ => qb.with_object_like(t),
+                        };
                     }
                     let ts: Vec<Triple> = qb.get_triples().into_iter().collect();
                     self.triples(A_QB_PARTIAL, pat, "default", &none, &ts, &exp0)?;
